@@ -65,7 +65,8 @@ class RuleResult:
 
     def require_floor(self, n, what):
         self.floor = n
-        if len(self.instances) < n:
+        # a rule that already found a violation is not passing vacuously: its report stands even if other instances vanished with the same edit
+        if len(self.instances) < n and not self.findings:
             raise AnalysisBroken("rule %s matched %d instance(s) of %s, fewer than the %d confirmed by hand: the rule would pass vacuously" % (self.rule, len(self.instances), what, n))
 
 
